@@ -55,11 +55,17 @@ def _field_stores(f: FuncInfo, kw: str) -> list[tuple[ast.Assign, object]]:
             tgts = st.targets if isinstance(st, ast.Assign) else [st.target]
             for t in tgts:
                 if isinstance(t, ast.Subscript) and isinstance(t.value, ast.Name) and t.value.id == kw:
-                    out.append((st, t.slice.value if isinstance(t.slice, ast.Constant) else None))
-        if isinstance(st, ast.Expr) and isinstance(st.value, ast.Call) and isinstance(st.value.func, ast.Attribute) and \
-                isinstance(st.value.func.value, ast.Name) and st.value.func.value.id == kw and \
-                st.value.func.attr in ("update", "pop", "clear", "setdefault"):
-            out.append((st, None))
+                    if not (isinstance(t.slice, ast.Constant) and isinstance(t.slice.value, str)):
+                        raise AnalysisError(f"{f.qualname}: store into `{kw}` under a computed key")
+                    out.append((st, t.slice.value))
+        for c in ([st.value] if isinstance(st, ast.Expr) else []):
+            if isinstance(c, ast.Call) and isinstance(c.func, ast.Attribute) and isinstance(c.func.value, ast.Name) \
+                    and c.func.value.id == kw:
+                if c.func.attr in ("pop", "clear", "popitem"):
+                    out.append((st, None))
+                elif c.func.attr in ("update", "setdefault", "__setitem__"):
+                    raise AnalysisError(f"{f.qualname}: `{norm_text(c)[:50]}` changes `{kw}` in a way the analyser "
+                                        "does not follow")
         if isinstance(st, ast.Delete):
             for t in st.targets:
                 if isinstance(t, ast.Subscript) and isinstance(t.value, ast.Name) and t.value.id == kw:
